@@ -1,4 +1,5 @@
 import RxnModel.Proofs.LsmScan
+import RxnModel.Proofs.LsmScan2
 import RxnModel.Proofs.CompactionSound
 /-!
 # C07 — DKV reads return the latest write at every moment
@@ -64,6 +65,22 @@ theorem scan_returns_live_keys_noCompact (as : List Act) (hn : noCompact as = tr
     ∀ e, e ∈ scan s p ↔ (Spec.get m e.key = some e ∧ e.del = false ∧ Bytes.hasPrefix e.key p = true) :=
   scan_spec (reachable_inv as s m (Or.inl hn) h).1 p
 
+/-- **A ScanPrefix in two phases** — the memtable list snapshotted and merged in state `sA`
+(`db.mtables.ScanPrefix`), the level list snapshotted later in state `sB` (`db.currentSSTables()`), separated by
+arbitrary background activity `as₂` (flush begins/commits, compaction commits, rotations, point reads; no foreground
+write, which shares the reader's goroutine) — returns exactly the live latest entries with the prefix, each once, in
+ascending order. `sA` is any reachable state. -/
+theorem two_phase_scan (as₁ as₂ : List Act) (sA sB : State) (m m' : Spec)
+    (h1 : runBoth {} [] as₁ = some (sA, m)) (hnw : noWrite as₂ = true) (h2 : runBoth sA m as₂ = some (sB, m'))
+    (p : Bytes) :
+    m' = m ∧ (scan2 sA sB p).Pairwise (fun a b => Bytes.lt a.key b.key = true) ∧
+    ∀ e, e ∈ scan2 sA sB p ↔ (Spec.get m e.key = some e ∧ e.del = false ∧ Bytes.hasPrefix e.key p = true) := by
+  have hA := reachable_inv as₁ sA m (Or.inr Rxn.Compaction.compactionSound) h1
+  have hB := runBoth_inv (fun _ => trivial) as₂ sA m sB m' (Or.inr Rxn.Compaction.compactionSound) hA.1 hA.2 h2
+  obtain ⟨hm, hsub⟩ := runBoth_noWrite sA.mems as₂ sA m sB m' hnw h2 (fun r hr => Or.inl hr)
+  subst hm
+  exact ⟨rfl, scan2_spec hA.1 hB.1 hsub p⟩
+
 /-! non-vacuity: a history with an overwrite, a delete, two rotations and a flush is accepted by the model, leaves
 the key in three containers, and reads the latest version -/
 def demo : List Act :=
@@ -82,5 +99,28 @@ def demoCompact : List Act :=
 example : (runBoth {} [] demoCompact).isSome = true := by decide +kernel
 example : (runBoth {} [] demoCompact).map (fun sm => answer (get sm.1 [1])) = some (some [11]) := by decide +kernel
 example : noCompact demoCompact = false := by decide
+
+/-! non-vacuity of `two_phase_scan`: key `[1]` is put and flushed to level 0, then deleted (the marker sits in the
+active memtable together with a live `[1,2]`); between the two phases of the scan that memtable is rotated out and
+flushed. The scan (memtables of the earlier state, tables of the later one) sees the marker twice and the old put
+once, and returns only `[1,2]`. Reading the phases the other way round (tables first, memtables later) would lose
+the marker and resurrect the deleted `[1]`. -/
+def demoScanA : List Act :=
+  [.put [1] [10], .rotate, .flushBegin 1, .flushCommit, .del [1], .put [1, 2] [20]]
+def demoScanB : List Act := [.rotate, .flushBegin 1, .flushCommit]
+
+/-- run `as₁` from the empty database, then `as₂`, and evaluate `f` on the two states -/
+def twoPhase {α : Type} (as₁ as₂ : List Act) (f : State → State → α) : Option α :=
+  (runBoth {} [] as₁).bind (fun sm => (runBoth sm.1 sm.2 as₂).map (fun sm' => f sm.1 sm'.1))
+
+example : noWrite demoScanB = true := by decide
+example : twoPhase demoScanA demoScanB (fun sA sB => scan2 sA sB [1]) = some [⟨[1, 2], 3, false, [20]⟩] := by
+  decide +kernel
+example : twoPhase demoScanA demoScanB (fun _ sB => sB.levels.flatten.map (·.run)) =
+    some [[⟨[1], 1, false, [10]⟩], [⟨[1], 2, true, []⟩, ⟨[1, 2], 3, false, [20]⟩]] := by decide +kernel
+example : twoPhase demoScanA demoScanB (fun _ sB => sB.mems) = some [[]] := by decide +kernel
+/-- the opposite phase order is wrong on the same schedule -/
+example : twoPhase demoScanA demoScanB (fun sA sB => scan2 sB sA [1]) = some [⟨[1], 1, false, [10]⟩] := by
+  decide +kernel
 
 end Rxn.C07
